@@ -4,5 +4,27 @@ from lib.units import SeqUnit, McUnit, TraceUnit
 
 def units(ctx):
     return [
+        # API-level spec at quiescent points (worker handlers and the two verif yield points are gates): every order of
+        # BackgroundWorker / Start / Run / Shutdown / ShutdownAndWait / held calls / worker exits, replayed on the real daemon
         SeqUnit("daemon", "Daemon", traces=(40, 40), thorough_traces=(300, 60), walks=(60, 25), thorough_walks=(500, 40)),
+        McUnit("daemon", "Daemon", "full", name="Daemon:full", thorough_only=True, timeout=1800),
+        # all interleavings of the implementation-level model (stopWorkers walk, BackgroundWorker/Start check-then-lock
+        # windows, Run's wait loop, worker goroutines)
+        # (quick: 3 names, 1 registering thread, 1 shutdown caller; thorough: 2 registering threads / 2 shutdown callers;
+        #  DaemonImpl.big.cfg = both at once, ~1M states, 5 min, not part of a tier)
+        McUnit("daemon", "DaemonImpl", "quick", name="DaemonImpl", thorough_cfgkind="adders2", timeout=1800),
+        McUnit("daemon", "DaemonImpl", "callers2", name="DaemonImpl:callers2", thorough_only=True, timeout=1800),
+        # negative controls: models of the three defects the code had and of the three Appendix-B mutations must be refuted
+        McUnit("daemon", "DaemonImpl", "unlocked_check", name="ctl-unlocked-check", expect="ShutdownWaits"),
+        McUnit("daemon", "DaemonImpl", "run_snapshot", name="ctl-run-snapshot", expect="RunWaits"),
+        McUnit("daemon", "DaemonImpl", "sync_waitgroup", name="ctl-sync-waitgroup", expect="NoPanic"),
+        McUnit("daemon", "DaemonImpl", "cmp_gt", name="ctl-cmp-gt", expect="CancelOrder"),
+        McUnit("daemon", "DaemonImpl", "wait_current", name="ctl-wait-current", expect="ShutdownWaits"),
+        McUnit("daemon", "DaemonImpl", "wrong_index", name="ctl-wrong-index", expect="any"),
+        # sanity of the trace spec itself
+        McUnit("daemon", "DaemonRun", "", name="DaemonRun:spec", thorough_only=True),
+        # forced schedules (TLC's counterexamples through the yield points) + free-running registrations / Run /
+        # concurrent Shutdown callers / re-registration races; every recorded execution validated by TLC
+        TraceUnit("daemon", "DaemonRun", "daemonstress", args=["-traces", 40, "-reuse", 400],
+                  thorough_args=["-traces", 400, "-reuse", 3000], sut="DaemonRun"),
     ]
